@@ -108,6 +108,34 @@ class Project:
             self._fold_consts(m)
         for q in self.functions:
             self.by_name.setdefault(q.rsplit(".", 1)[-1].split(":")[-1], []).append(q)
+        self._publish_init_literals()
+
+    def _publish_init_literals(self):
+        """Attributes that Grid.__init__ sets to an empty container or a constant (`self._cache = {}`): the hand-built grid
+        models of the harnesses (xmodel.make_grid) start with the same attributes, so that a constructor which introduces such a
+        piece of state does not make every harness stumble over an unknown attribute."""
+        from . import xmodel
+
+        lit = {}
+        fi = self.functions.get("grid:Grid.__init__")
+        if fi is not None:
+            for st in fi.node.body:
+                tgt, val = None, None
+                if isinstance(st, ast.Assign) and len(st.targets) == 1:
+                    tgt, val = st.targets[0], st.value
+                elif isinstance(st, ast.AnnAssign) and st.value is not None:
+                    tgt, val = st.target, st.value
+                if isinstance(tgt, ast.Attribute) and isinstance(tgt.value, ast.Name) and tgt.value.id == "self":
+                    try:
+                        if isinstance(val, ast.Call) and isinstance(val.func, ast.Name) and val.func.id in ("dict", "list", "set", "OrderedDict") and not val.args and not val.keywords:
+                            lit[tgt.attr] = {"dict": dict, "list": list, "set": set, "OrderedDict": dict}[val.func.id]()
+                        else:
+                            v = ast.literal_eval(val)
+                            if v is None or isinstance(v, (dict, list, set, int, float, str, bool, tuple)):
+                                lit[tgt.attr] = v
+                    except (ValueError, SyntaxError, TypeError):
+                        pass
+        xmodel.GRID_INIT_LITERALS = lit
 
     def _collect(self, m: Module, node, prefix, cls, parent):
         for ch in ast.iter_child_nodes(node):
